@@ -1787,3 +1787,33 @@ Proof.
   - apply fold_total; [apply sorted_nodup, uniq_sorted_sorted | intros x Hx; now apply uniq_sorted_in].
   - intros g _. apply select_length. now rewrite zrange_length.
 Qed.
+
+(* ------------------------------------------------------------------ *)
+(* venn with a non-integer (rational) chunk size                        *)
+(* ------------------------------------------------------------------ *)
+(* the half-open intervals [k c, (k+1) c) tile the line: the scaled predicate is the integer one *)
+Lemma in_chunk_q_scaled cn cd k sp :
+  in_chunk_q cn cd k sp = in_chunk (k * cn) cn (scale_spike cd sp).
+Proof. unfold in_chunk_q, in_chunk, scale_spike. cbn [fst]. f_equal. f_equal. ring. Qed.
+
+Lemma in_chunk_q_unique cn cd k sp : 0 < cn ->
+  in_chunk_q cn cd k sp = (k =? (fst sp * cd) / cn).
+Proof. intros H. rewrite in_chunk_q_scaled. apply in_chunk_div. exact H. Qed.
+
+Theorem venn_q_conserves xbin ybin nchan cn cd (trains : list (list spike)) res n s :
+  n = Z.of_nat (length trains) -> n = 2 \/ n = 3 -> 0 < cn -> 0 < cd ->
+  (forall t sp, In t trains -> In sp t -> 0 <= fst sp) ->
+  venn_q xbin ybin nchan cn cd trains = Some res -> 0 <= s < n ->
+  Z.of_nat (length res) = 2 ^ n - 1 /\
+  region_sum n s res = Z.of_nat (length (nth (Z.to_nat s) trains [])).
+Proof.
+  intros Hlen Hn Hcn Hcd Hpos H Hs. unfold venn_q in H.
+  destruct (venn_conserves {| v_xbin := xbin * cd; v_ybin := ybin; v_nchan := nchan; v_chunk := cn |}
+              (map (map (scale_spike cd)) trains) res n s) as [H1 H2]; try assumption.
+  - now rewrite map_length.
+  - intros t sp Ht Hsp. apply in_map_iff in Ht. destruct Ht as [t0 [<- Ht0]].
+    apply in_map_iff in Hsp. destruct Hsp as [sp0 [<- Hsp0]]. unfold scale_spike. cbn [fst].
+    specialize (Hpos t0 sp0 Ht0 Hsp0). nia.
+  - split; [exact H1|]. rewrite H2. f_equal.
+    change (@nil spike) with (map (scale_spike cd) []). rewrite map_nth, map_length. reflexivity.
+Qed.
